@@ -13,8 +13,8 @@ TECH = "deterministic simulation with fault injection: seeded schedule/fault sea
 
 # id -> (category, engine, text, design_ref, technique-suffix)
 CHECKS = {
- "C01": ("exploration", "e2e", "Seeded search over generated sites x configurations x schedules of the whole pipeline; oracle: every seed taken from the queue is reported finished exactly once, only when no node of its tree is unfetched/unprocessed and all planted tree URLs were requested before the finish event; reactor table = accepted-unfinished at every quiescent point.", "DESIGN.md 4/C01"),
- "C02": ("exploration", "e2e", "Seeded search over body sizes/framings/encodings/statuses x WARC pool/dedupe/discard settings x schedules; an independent WARC reader scans the job's files at every finish event and compares request/response/revisit records with the bytes the simulated origin actually sent (SHA-1, length, status); discarded responses must be absent.", "DESIGN.md 4/C02"),
+ "C01": ("exploration", "e2e", "Seeded search over generated sites x configurations x schedules of the whole pipeline; oracle: every seed taken from the queue is reported finished exactly once, only when no node of its tree is unfetched/unprocessed and all planted tree URLs were requested before the finish event; reactor table = accepted-unfinished at every quiescent point. Also under the stop / pause enumeration of C03 (whatever is reported finished during shutdown has a finished tree; a seed the reactor released was reported to the queue) and against the local queue's DELETE (one successful delete per finished row).", "DESIGN.md 4/C01"),
+ "C02": ("exploration", "e2e", "Seeded search over body sizes/framings/encodings/statuses x WARC pool/dedupe/discard settings x schedules; an independent WARC reader scans the job's files at every finish event and compares request/response/revisit records with the bytes the simulated origin actually sent (SHA-1, length, status); discarded responses must be absent. A third of the cases starve the WARC writer (as a whole or a fifth of the individual writes); the stop / pause enumeration of C03 runs under this oracle too.", "DESIGN.md 4/C02"),
  "C03": ("fault_enumeration", "e2e", "Per sampled scenario and configuration-matrix point (proxy/direct, sync/async WARC, limiter, workers, pool, seencheck) a profiling run enumerates the pipeline's progress events; one run per (event kind, occurrence) issues controler.Stop() there, plus stops while paused (operator, disk watchdog), during resume, at start and after drain. Oracle: Stop() returns within a simulated-time bound, no crash, no .open file, every WARC file parses to EOF as complete records with intact request/response pairs.", "DESIGN.md 4/C03"),
  "C04": ("fault_enumeration", "e2e", "Two real OS processes per case: the first is SIGKILLed at an enumerated (instrumented point, occurrence), inside WARC write #k with a torn tail, or at a seeded scheduler step (or stopped gracefully); the second restarts on the same job directory, fault-free, to quiescence. Oracle: rows not reported finished are handed out and requested again and none stays CLAIMED; rows deleted as finished have their accepted captures in the WARC files left on disk; those files parse record by record up to a torn tail of an .open file only.", "DESIGN.md 4/C04"),
  "C05": ("exploration", "e2e", "Seeded search over filter sets x URL texts planted as seeds, redirect targets and assets; every request and every connection that reaches the simulated network is judged by a reference scope predicate written from the statement.", "DESIGN.md 4/C05"),
@@ -23,15 +23,15 @@ CHECKS = {
  "C08": ("exploration", "e2e", "Every seen-store check observed in simulated crawls is judged against a reference model of completed records stamped with scheduler steps (completed-before-started must be honoured; seen only if recorded; seen implies skipped; no URL fetched by two non-seed nodes of one tree).", "DESIGN.md 4/C08"),
  "C09": ("exploration", "e2e", "Every canonical URL flowing through simulated crawls is re-rendered from fresh objects under other simulator-owned map-iteration orders, re-normalised (idempotence), shape-checked, and compared with the request line the origin received.", "DESIGN.md 4/C09"),
  "C11": ("exploration", "e2e", "Monitor at every stage boundary of simulated crawls: independent well-formedness of the item tree via public getters, uniqueness after de-duplication, and 'declared complete <=> no node awaits fetching or post-processing' at the finisher's decision.", "DESIGN.md 4/C11"),
- "C12": ("exploration", "comp", "Component simulation of the reactor API under concurrent producers/consumers/freeze with simulator-owned select tie-breaks: bounded in-flight seeds, table = accepted-unfinished, feedback/finish semantics incl. unknown ids and repeats, delivery of accepted seeds, no insert after freeze, no deadlock.", "DESIGN.md 4/C12"),
- "C13": ("exploration", "comp", "Component simulation of the per-host limiter on the fake clock: window bound on release instants, penalty lower bounds and cap, state ranges from limiter snapshots, over capacities/rates/streaks/gaps and concurrent waiters.", "DESIGN.md 4/C13"),
- "C14": ("exploration", "comp", "Component simulation of the pause manager with worker-shaped subscribers and several independent controllers running matched/unmatched pause/resume scripts, worker exits and shutdown: every call returns, no work between acknowledgement and resume, resume wakes all.", "DESIGN.md 4/C14"),
- "C17": ("exploration", "e2e", "Component simulation on a statement-level instrumented copy of the stats package re-generated from /repo at every run (yield before every statement, nested calls hoisted, non-atomic read-modify-write split, simulator-aware mutex): 2-6 concurrent clients, end state compared with a sequential model. Plus conservation in simulated crawls: totals (URLs crawled, seeds finished), worker gauges (live workers while running, 0 after stop) and the mean response time are compared with ground truth counted from hook events at idle and after stop.", "DESIGN.md 4/C17"),
+ "C12": ("exploration", "comp", "Component simulation of the reactor API under concurrent producers/consumers/freeze with simulator-owned select tie-breaks: bounded in-flight seeds, table = accepted-unfinished, feedback/finish semantics incl. unknown ids and repeats, delivery of accepted seeds, no insert after freeze, no deadlock. Runs on a statement-level instrumented copy of the package (rejected insert leaves nothing tracked, tokens in use = tracked seeds when every call has returned); a second simulation drives the real package with 3 000 - 66 000 tokens, all in flight, nobody reading (blocking decided by quiescence).", "DESIGN.md 4/C12"),
+ "C13": ("exploration", "comp", "Component simulation of the per-host limiter on the fake clock: window bound on release instants, penalty lower bounds and cap, state ranges from limiter snapshots, over capacities/rates/streaks/gaps and concurrent waiters. Runs on a statement-level instrumented copy; a caller-side oracle (a Wait entered after a throttling report returned is not released within 5 s unless the host's bucket was dropped) also applies under LFU eviction, and, with its own pipeline cases (throttled hosts on explicit ports), to the archiver's use of the limiter.", "DESIGN.md 4/C13"),
+ "C14": ("exploration", "comp", "Component simulation of the pause manager with worker-shaped subscribers and several independent controllers running matched/unmatched pause/resume scripts, worker exits and shutdown: every call returns, no work between acknowledgement and resume, resume wakes all. Runs on a statement-level instrumented copy; includes cycles with no subscriber and an exact model for a single controller; the pause / resume / stop cases of C03's enumeration (plus resume-then-pause-at-once) run under an oracle on the real stage workers.", "DESIGN.md 4/C14"),
+ "C17": ("exploration", "e2e", "Component simulation on a statement-level instrumented copy of the stats package re-generated from /repo at every run (yield before every statement, nested calls hoisted, non-atomic read-modify-write split, simulator-aware mutex): 2-6 concurrent clients, end state compared with a sequential model. Plus conservation in simulated crawls: totals (URLs crawled, seeds finished), worker gauges (live workers while running, 0 after stop) and the mean response time are compared with ground truth counted from hook events at idle and after stop. Prometheus exporter on in a third of the component iterations; the stop / pause enumeration of C03 checks 'zero after stop' on every worker exit path.", "DESIGN.md 4/C17"),
  "C10": ("exploration", "e2e", "The simulated origin is the adversary: generated and mutated bodies of every declared type plus hostile Location/Link/Content-Type/Content-Encoding headers and lying lengths, crawled next to well-behaved bystander seeds. A crash of the process, a goroutine still running inside input processing at the wall-clock limit, a seed never finished or a bystander URL never fetched is a violation.", "DESIGN.md 4/C10"),
  "C15": ("fault_enumeration", "e2e", "Crawls with outlinks against a simulated stateful crawl HQ under generated per-call fault sequences (5xx, reset before/after apply, timeout) or against the local sqlite queue; once idle, the multiset of (text, via, hops) and finish ids emitted by the pipeline is compared with what the queue applied; hops/via must survive the round trip back into a seed.", "DESIGN.md 4/C15"),
  "C18": ("exploration", "e2e", "The real disk watchdog loop on the fake clock with a seeded free-space history behind the statfs seam: every tick verdict and every pause/resume is compared with an exact rational reference; the start-up decision is compared on boundary-biased (total, free, setting) triples, with monotonicity on every pair.", "DESIGN.md 4/C18"),
  "C19": ("exploration", "e2e", "Generated JSON/XML/RSS/sitemap/M3U8 documents with URLs planted by construction must be fetched as assets or queued as outlinks according to their extension; a stateful simulated S3-style service (both listing APIs, delimiter, zero-size keys, page sizes 1-7) must be walked through queue -> seed -> fetch until every non-empty object is queued, with a bounded number of listing requests.", "DESIGN.md 4/C19"),
- "C16": ("exploration", "e2e", "Paired simulated crawls with N and 4N generated seeds under the same configuration: 31 simulated minutes after the queue drained the process footprint is sampled (reactor table, limiter buckets, temp directory, /proc/self/fd by class, goroutines by entry function); absolute requirements on each run and equality between the two.", "DESIGN.md 4/C16"),
+ "C16": ("exploration", "e2e", "Paired simulated crawls with N and 4N generated seeds under the same configuration: 31 simulated minutes after the queue drained the process footprint is sampled (reactor table, limiter buckets, temp directory, /proc/self/fd by class, goroutines by entry function); absolute requirements on each run and equality between the two. The statement-level limiter simulation also runs under this property and judges the table bound at every insertion.", "DESIGN.md 4/C16"),
 }
 
 NA_REASON = "check under construction in this round; see DESIGN.md section 4 for the planned simulation"
